@@ -1,7 +1,7 @@
 (* C18 — Staging and deployment never write outside their target directory.  Property theorems only. *)
 From Coq Require Import String List Bool.
 Import ListNotations.
-Require Import V.Path.Model V.Path.Proofs V.Path.Archive V.Path.Deploy V.Path.PreLinks V.Path.CopyTree.
+Require Import V.Path.Model V.Path.Proofs V.Path.Archive V.Path.Deploy V.Path.PreLinks V.Path.CopyTree V.Path.Sequence.
 Open Scope string_scope.
 
 (* For the SPECIFIED check (every member, and every link target, stays in the destination after
@@ -144,6 +144,41 @@ Theorem C18_copy_makes_no_link : forall (dsl : bool) (srcs : sources) (tgt : lis
 Proof. exact copy_makes_no_link. Qed.
 Print Assumptions C18_copy_makes_no_link.
 
+(* SEQUENCES of references staged into ONE working directory (Job.stageIn stages a component's references one after
+   the other; each step finds what the earlier ones, or an earlier run, left there).  [stage_seq] runs the references
+   over a state of the working directory — what exists, which entries are symbolic links and where they lead — every
+   step FOLLOWING the links of that state as the file system does: :copy of a file (shutil.copy, a write that follows a
+   link at <directory>/<name>; the repaired code refuses to copy on top of a link, F18f), :copy of a directory
+   (copytree, symlinks re-created), :link (os.symlink), :extract (the repaired check against the links present, then
+   extraction).  For every working directory d that is real (what Job/StageReference use: no link is d or above d),
+   every state of it — any links, dangling, looping, leading anywhere — every sequence, colliding or nested names
+   included, and both ways of going on after a failure:
+   no step is redirected by a link — the link-following run is the run that follows none, step by step (entries
+   gained, paths written, codes); ... *)
+Theorem C18_sequence_no_redirect : forall (d : list string) (st : list fsent) (stop : bool) (refs : list sref),
+  gooddir d = true -> real_dir (links_of st) d = true ->
+  stage_seq d st stop refs = run_refs false true stop d st true refs.
+Proof. intros. apply seq_no_redirect; assumption. Qed.
+Print Assumptions C18_sequence_no_redirect.
+
+(* ... every path the whole sequence creates or writes is inside the working directory (C18_staging_confined for
+   sequences; false before the repair: C18_copy_over_link_refuted); ... *)
+Theorem C18_sequence_confined : forall (d : list string) (st : list fsent) (stop : bool) (refs : list sref),
+  gooddir d = true -> real_dir (links_of st) d = true ->
+  forall p, In p (seq_writes (stage_seq d st stop refs)) -> within d p.
+Proof. exact seq_confined. Qed.
+Print Assumptions C18_sequence_confined.
+
+(* ... and the directory is still real afterwards, so the statement holds again for whatever is staged next. *)
+Theorem C18_sequence_stays_real : forall (d : list string) (st : list fsent) (stop : bool) (refs : list sref),
+  gooddir d = true -> real_dir (links_of st) d = true ->
+  real_dir (links_of (seq_state (stage_seq d st stop refs))) d = true.
+Proof.
+  intros d st stop refs Hg Hr. unfold stage_seq. rewrite (seq_no_redirect d stop refs st true Hg Hr).
+  apply seq_stays_real; assumption.
+Qed.
+Print Assumptions C18_sequence_stays_real.
+
 (* non-vacuity: a benign archive (directories, a file, a relative symbolic link with "..", a hard
    link, an absolute name inside the destination) is accepted by the repaired check and extracted where
    expected; the hostile ones are refused; a nested manifest with a link entry is accepted. *)
@@ -198,5 +233,23 @@ Example C18_nonvacuous :
      ([(i ++ ["b"], EDir); (i ++ ["b"; "d"], EDir)]%list, false) /\
    deploy_fs res_fs false false srcs i [("b", "afile:copy")] = ([], false) /\
    snd (deploy_fs res_fs false false srcs i [("data", "ds:copy"); ("data/d/fl/x", "extra:copy")]) = false /\
-   nodup_keys [("a", "x"); ("b", "y"); ("a", "z:link")] = false).
+   nodup_keys [("a", "x"); ("b", "y"); ("a", "z:link")] = false) /\
+  (* a sequence with colliding and nested names: p1/out.txt:link, p2/out.txt:copy (refused: on top of the link),
+     p2/dd:copy (a folder that holds a link), p1/dd:link (the name exists), an archive with a member below the link the
+     folder brought (refused), an archive that adds a file below the copied folder and a link, a file copied on top of
+     that link (refused), a file copied next to it; Job.stageIn stops at the first failure *)
+  (let refs := [RLink "/p1/out.txt"; RCopyFile "/p2/out.txt";
+                RCopyDir "/p2/dd" [(["a"], SFile); (["l"], SLnk "/store" (Some true)); (["l"; "x"], SFile)];
+                RLink "/p1/dd"; RExtract [("dd/l/x", KFile)]; RExtract [("dd/new/y", KFile); ("z", KSym "dd/a")];
+                RCopyFile "/p3/z"; RCopyFile "/p3/w"] in
+   stage_seq d [] false refs =
+     ([(d ++ ["out.txt"], ELink ["p1"; "out.txt"]); (d ++ ["dd"], EDir); (d ++ ["dd"; "a"], EFile);
+       (d ++ ["dd"; "l"], ELink ["store"]); (d ++ ["dd"; "new"], EDir); (d ++ ["dd"; "new"; "y"], EFile);
+       (d ++ ["z"], ELink (d ++ ["dd"; "a"])); (d ++ ["w"], EFile)]%list,
+      [d ++ ["out.txt"]; d ++ ["dd"]; d ++ ["dd"; "a"]; d ++ ["dd"; "l"]; d ++ ["dd"; "new"; "y"]; d ++ ["z"]; d ++ ["w"]]%list,
+      [(0, true); (2, true); (0, true); (2, true); (1, true); (0, true); (2, true); (0, true)]) /\
+   stage_seq d [] true refs = ([(d ++ ["out.txt"], ELink ["p1"; "out.txt"])]%list, [d ++ ["out.txt"]]%list, [(0, true); (2, true)]) /\
+   (* a dangling link found in the directory: nothing is copied on top of it; a file found there is replaced *)
+   seq_codes (stage_seq d [(d ++ ["out.txt"], ELink ["p1"; "new.txt"]); (d ++ ["w"], EFile)]%list false
+                        [RCopyFile "/p2/out.txt"; RCopyFile "/p3/w"; RCopyDir "/p2/w" []]) = [(2, true); (0, true); (2, true)]).
 Proof. vm_compute. repeat split; reflexivity. Qed.
